@@ -23,9 +23,41 @@ def _pipeline_conformance(ctx, tier, seed):
     return pipeline_conf.run(ctx, tier, seed, 'MC_C06', 'MC_C06_q', 400)
 
 
+def _walker_limit_conformance(ctx, tier, seed):
+    """White-box: the streamed early exit inside the walk.  Unordered, unfiltered LIMIT runs of the C06 scenarios are recorded with
+    the hooks on and replayed through Walker's actions (PickOne / LimitBreak / EndOfDir / Dequeue) by Trace_Walker."""
+    import json
+    import os
+    import random
+    import time
+    from driver import lib, check
+    t0 = time.time()
+    r = lib.run_tlc("MC_C06", "MC_C06_q", workers=4)
+    lib.tlc_ok(r, "MC_C06")
+    scs = [x for x in r.replays if not x["keys"] and not x["arch"] and "/where" not in x["class"] and "constant-column" not in x["class"]]
+    random.Random(seed + 4).shuffle(scs)
+    if tier == "quick":
+        scs = scs[:60]
+    recs = []
+    for k, scn in enumerate(scs):
+        w, snap = ctx.world(scn["world"], None)
+        run = [x for x in scn["runs"] if x["tag"] == "lim"][0]
+        tf = os.path.join(ctx.scratch, "tracew.%d" % k)
+        argv = [check.subst(a, w) for a in run["argv"]]
+        lib.run_fselect(argv, w.paths[0], w.home, extra_env={"FSELECT_VERIF_TRACE": tf})
+        events = [json.loads(x) for x in open(tf)] if os.path.exists(tf) else []
+        recs.append({"id": len(recs) + 1, "world": scn["world"], "roots": [0] if scn["prefix"] else [5, 9], "min": 0, "max": 0,
+                     "dfs": "/dfs" in scn["class"], "limit": scn["limit"], "snapshot": snap, "rootino": str(os.stat(w.paths[0]).st_ino),
+                     "events": [{"ev": e["ev"], "ino": e.get("ino", ""), "reported": e.get("reported", False),
+                                 "descend": e.get("descend", "")} for e in events if e["ev"] in lib.WALK_EVENTS], "argv": argv})
+    res = lib.validate_traces(ctx, "Trace_Walker", recs, shards=4)
+    res.update({"name": "WalkerLimit", "wall_s": round(time.time() - t0, 1)})
+    return res
+
+
 def conformance(tier, seed):
     # white-box: the writer / accept events of real runs of these scenarios are replayed through Pipeline.tla
-    return [dict(name="Pipeline", run=_pipeline_conformance)]
+    return [dict(name="Pipeline", run=_pipeline_conformance), dict(name="WalkerLimit", run=_walker_limit_conformance)]
 
 
 def generators(tier, seed):
